@@ -345,10 +345,7 @@ func (x *Exec) specEq(env *SpecEnv, a, b Value) *Term {
 			return And(Eq(av.Len, IntLit(0)), Eq(av.Base, IntLit(0)))
 		}
 	case FuncV:
-		if av.Sym != nil {
-			return Eq(av.Sym, x.asTerm(b))
-		}
-		return TFalse
+		return Eq(x.asTermAny(av), x.asTermAny(b))
 	case MapV:
 		return Eq(av.ID, x.asTermAny(b))
 	}
